@@ -199,6 +199,7 @@ struct TPayloadT
 		return f.h;
 	}
 	explicit TPayloadT(int id) : c(id) { check = patternFor(id, pat); }
+	TPayloadT() : c(-1) { check = patternFor(-1, pat); } // blank (needed by QueuedEvent for peekEvent/takeEvent)
 	TPayloadT(const TPayloadT & o) : c((faultPoint(F_PL_COPY), o.c)), check(o.check) {
 		static_assert(Copyable, "copy of move-only payload");
 		memcpy(pat, o.pat, N);
@@ -234,6 +235,7 @@ template <int N>
 struct TMoveOnlyT : TPayloadT<N, false>
 {
 	explicit TMoveOnlyT(int id) : TPayloadT<N, false>(id) {}
+	TMoveOnlyT() : TPayloadT<N, false>() {}
 	TMoveOnlyT(TMoveOnlyT && o) : TPayloadT<N, false>(std::move(o)) {}
 	TMoveOnlyT & operator = (TMoveOnlyT && o) { TPayloadT<N, false>::operator = (std::move(o)); return *this; }
 	TMoveOnlyT(const TMoveOnlyT &) = delete;
